@@ -126,11 +126,29 @@ def equal_size_history(rng):
     return init, offers, labels
 
 
-def client(impl, init, offers, persist, tmp):
-    """the caller-side loop, with the real library; optionally the trusted root lives in a file between steps"""
+def client(impl, init, offers, persist, tmp, reuse=False):
+    """the caller-side loop, with the real library; optionally the trusted root lives in a file between steps; optionally (`reuse`) the client keeps one
+    buffer object for the offers it receives and refills it in place — the same dict objects, other content, offer after offer"""
     cur = copy.deepcopy(init)
     verdicts, idx, states = [], 0, []
+    slot = {"signatures": {}, "signed": {}}
     for i, o in enumerate(offers, 1):
+        if reuse and isinstance(o, dict) and isinstance(o.get("signed"), dict) and isinstance(o.get("signatures"), dict) and set(o) == {"signatures", "signed"}:
+            slot["signed"].clear(); slot["signed"].update(copy.deepcopy(o["signed"]))
+            slot["signatures"].clear(); slot["signatures"].update(copy.deepcopy(o["signatures"]))
+            if persist:
+                impl.common.write_metadata_to_file(cur, tmp)
+                cur = impl.common.load_metadata_from_file(tmp)
+            states.append(copy.deepcopy(cur))
+            with impl.quiet_stdout():
+                try:
+                    impl.authentication.verify_root(cur, slot)
+                    verdicts.append("OK")
+                    cur = copy.deepcopy(slot)
+                    idx = i
+                except Exception as e:  # noqa: BLE001
+                    verdicts.append("E " + impl.classify(e))
+            continue
         if persist:
             impl.common.write_metadata_to_file(cur, tmp)
             cur = impl.common.load_metadata_from_file(tmp)
@@ -166,7 +184,7 @@ def run(ck: Check) -> None:
     model = ck.driver.run(lines, list(range(len(lines))))
     for hidx, ((init, offers, labels), line, m) in enumerate(zip(hists, lines, model)):
         persist = hidx % 2 == 1 or hidx in forced
-        verdicts, idx, cur, states = client(impl, init, offers, persist, tmp)
+        verdicts, idx, cur, states = client(impl, init, offers, persist, tmp, reuse=(hidx % 3 == 2))
         ck.evaluations += len(offers)
         for lab, v in zip(labels, verdicts):
             ck.count("offer:" + lab + ":" + ("accepted" if v == "OK" else "rejected"))
